@@ -27,7 +27,7 @@ DOC_CLASSES = ['Text', 'Spreadsheet', 'Presentation', 'Drawing', 'Chart', 'Image
 
 TEXT_POOL = [u'plain text', u' ', u'  ', u'\n', u'\t', u' \n\t ', u'a\rb', u'\r\n', u'<b>&amp;</b>', u'"quoted" \'single\'',
              u']]>', u'x ]]> y', u'é ü 中文', u'\U0001F600', u'tab\there', u'line\nbreak', u' lead', u'trail ', u'&', u'<', u'>',
-             u'a  b   c', u' ', u' ', u'�', u'0', u'-']
+             u'a  b   c', u' ', u' ', u'�', u'0', u'-', u' xmlns:x="y" ']
 DISCOURAGED = [u'\x7f', u'\x85x\x86', u'\U0001fffe']
 NAME_POOL = [u'a', u'Abc_1', u'n-2.x', u'_u', u'élan', u'X9']
 GENERIC_POOL = [
